@@ -9,15 +9,16 @@ MODULE = "Props.C08"
 THEOREMS = ["C08_count_within_bound", "C08_large_group_passes", "C08_noise_off_floor", "C03_boxMuller_bound", "C10_adjust_sum",
             "C10_microdata_rows", "C12_patch", "C18_outlier_keeps_ranges", "C18_tree_invariant", "C18_rows_partitioned", "C18_forest_trees1", "C18_forest_tree",
             "C10_forest_harvest_conservation", "C08_materialize_rows", "C10_harvest_conservation_strong", "forest_tree_matchingRows", "forest_root_unique",
-            "C08_single_cluster_rows", "C08_synthesize_single_rows", "fitTable_size"]
+            "C08_single_cluster_rows", "C08_synthesize_single_rows", "fitTable_size",
+            "buildTable_rows", "doStitch_rows", "materializeGM_tree", "C08_patched_table_rows"]
 PARTIAL = ["end to end for one cluster (C08_single_cluster_rows): for a table of N rows with one non-null entity id per row, Forest.init -> tree of any column "
            "combination -> harvest -> microdata yields between N-1-(17 sd+1/2) and N+17 sd+1/2 rows, and none only if N < low_threshold+(gap+8.5) layer_sd - "
-           "one theorem from the input table to the row list (exact arithmetic, deviates bounded by 8.5, low_threshold >= 2); what remains outside is the composition "
-           "through stitching of several clusters (per-stage theorems of C12: left-owner stitching and patching keep the left row count)",
+           "one theorem from the input table to the row list (exact arithmetic, deviates bounded by 8.5, low_threshold >= 2); composed through build_table for per-column patching (NoClustering) and left-owned stitching: C08_patched_table_rows (the assembled table has the rows of the "
+           "initial cluster's microtable, hence the same bounds); shared-owner stitching of several clusters changes the row count within the C12 balance bounds and is outside this clause of the property",
            "'no input row is lost or counted twice' is proved for every tree a forest hands out, folded outliers included (C18_forest_trees1, "
            "C18_forest_tree: the leaves' rows are a permutation of 0..n-1); composed for one cluster (materialize_tree = sample() under "
            "SingleClustering): C08_materialize_rows — rows = the root's released count or one less, or none — tied by the composed stream S-sample1; "
-           "the composition through stitching (several clusters) is the per-stage theorems of C12, not one theorem",
+           "through build_table with patched / left-owned derived clusters: C08_patched_table_rows",
            "the hard bound of the deviate is proved over the reals; the double-precision libm evaluation is not covered"]
 ASSUMPTIONS = []
 TRUSTED = ["typed-table generators; strategies single / none / default(<=4 columns)"]
